@@ -356,7 +356,7 @@ func init() {
 	B := strBytes
 	N := func(v value) string { return v.(string) }
 	for _, n := range []string{"strings.Count", "strings.EqualFold", "strings.Index", "strings.IndexByte", "strings.Replace", "strings.ToLower",
-		"strconv.Atoi", "strconv.Itoa", "sort.Strings", "sort.Ints", "sort.Float64s", "unicode/utf8.DecodeRuneInString", "bytes.Equal", "bytes.IndexByte", "os.Getenv", "fmt.Sprint"} {
+		"strconv.Atoi", "strconv.Itoa", "sort.Strings", "sort.Ints", "sort.Float64s", "unicode/utf8.DecodeRuneInString", "bytes.Equal", "bytes.IndexByte", "os.Getenv"} {
 		delete(externals, n)
 	}
 	ext("strings.Index", func(fr *frame, a []value) value {
